@@ -145,6 +145,8 @@ def dict_seq(I: Interp, d: SV, kind) -> Seq:
     def item(i):
         k = SV(smt.simp(z3.Select(keys, i)), kty)
         st.assume_wt(k)
+        # instance of the well-formedness fact for this position (spares the solver the instantiation)
+        st.assume(z3.Implies(z3.And(i >= 0, i < n), z3.Select(has, k.t)))
         if kind == "keys":
             return k
         v = I.dict_get(SV(d.t, ty), k)
